@@ -37,6 +37,8 @@ type opInfo struct {
 	work   *env.Work
 	ip     string
 	booked bool
+	uid    string
+	slow   bool
 }
 
 type scenario struct {
@@ -66,12 +68,14 @@ type driver struct {
 	nLines   int
 	last     map[string]string
 	ops      map[int]*opInfo
-	filtered map[string][]string
+	filtered map[string][]string // pod -> nodes offered by the latest successful filter of the current incarnation
 	inc      map[string]int
 	budget   struct{ faults, crashes, admin, reloads int }
 	api      *restful.Container
 	tid      int
 	hung     bool
+	lagMode  bool   // this trace delivers pod informer events rarely
+	slowType string // operations of this type are stepped rarely in this trace (long windows)
 }
 
 // ---------------------------------------------------------------- state projection
@@ -197,7 +201,7 @@ func noNull(v interface{}) interface{} {
 // ---------------------------------------------------------------- operations
 
 func (d *driver) register(typ, pod, node string, op *env.Op, err error) *opInfo {
-	oi := &opInfo{op: op, typ: typ, pod: pod, node: node}
+	oi := &opInfo{op: op, typ: typ, pod: pod, node: node, slow: typ == d.slowType}
 	d.ops[op.ID] = oi
 	if err != nil {
 		d.hung = true
@@ -234,6 +238,7 @@ func (d *driver) startFilter(pod string) {
 		return M{"ok": e == nil, "err": errStr(e), "nodes": names(ok), "failed": fm}
 	})
 	oi := d.register("filter", pod, "", op, err)
+	oi.uid = string(p.UID)
 	d.emitOp(oi, M{"ev": "StartFilter", "op": op.ID, "pod": pod, "uid": string(p.UID), "nodes": d.w.NodeOrder})
 }
 
@@ -394,7 +399,9 @@ func (d *driver) book(oi *opInfo, e M) {
 	ok, _ := res["ok"].(bool)
 	switch oi.typ {
 	case "filter":
-		if ok {
+		// the scheduler binds only on the strength of a filter result computed for this very pod (uid)
+		cur := d.w.TruthPod(oi.pod)
+		if ok && cur != nil && string(cur.UID) == oi.uid {
 			d.filtered[oi.pod] = res["nodes"].([]string)
 		} else {
 			delete(d.filtered, oi.pod)
@@ -409,9 +416,7 @@ func (d *driver) book(oi *opInfo, e M) {
 		}
 	case "reload":
 		if ok {
-			var t int
-			fmt.Sscan(oi.node, &t)
-			d.w.LoadedCf = t
+			d.w.LoadedCf = d.w.ServedCf
 		}
 	}
 }
@@ -581,7 +586,11 @@ func (d *driver) envAction() bool {
 		}
 	}
 	if len(w.Pevq) > 0 {
-		add(12, d.deliverPod)
+		if d.lagMode {
+			add(2, d.deliverPod)
+		} else {
+			add(12, d.deliverPod)
+		}
 	}
 	if d.sc.Feat["scale"] {
 		for app := range d.sc.Sts {
@@ -762,7 +771,17 @@ func (d *driver) stepAction() bool {
 	if len(r) == 0 {
 		return false
 	}
-	oi := r[d.rng.Intn(len(r))]
+	// operations marked slow are stepped with a fifth of the others' weight
+	var wts []int
+	for _, x := range r {
+		if x.slow {
+			wts = append(wts, 1)
+		} else {
+			wts = append(wts, 6)
+		}
+	}
+	var oi *opInfo
+	pick(d.rng, wts, func(i int) { oi = r[i] })
 	fault, crashAt := 0, 0
 	name := oi.op.Pending.Name
 	fallible := map[string]int{"AllocateInSubnet": 1, "AllocateInSubnetWithKey": 2, "AllocateMulti": 3, "ReserveIP": 2, "UpdateAttr": 2,
@@ -856,7 +875,8 @@ func (d *driver) quiesce() {
 	d.emit(M{"ev": "Quiesce"})
 }
 
-func (d *driver) runTrace(id, length int) {
+// beginTrace builds a fresh world for the current scenario and writes the Reset line.
+func (d *driver) beginTrace(id int, extra M) {
 	sc := d.sc
 	w := env.NewWorld(sc.Cfgs, sc.NodeSub, sc.Cloud)
 	d.w = w
@@ -892,7 +912,24 @@ func (d *driver) runTrace(id, length int) {
 		}
 		specs[s.Name] = s
 	}
-	d.emit(M{"ev": "Reset", "trace": id, "scenario": sc.Name, "configs": confs, "specs": specs, "nodesub": sc.NodeSub, "cloudOn": sc.Cloud})
+	e := M{"ev": "Reset", "trace": id, "scenario": sc.Name, "configs": confs, "specs": specs, "nodesub": sc.NodeSub, "cloudOn": sc.Cloud}
+	for k, v := range extra {
+		e[k] = v
+	}
+	d.emit(e)
+}
+
+// emitPlain writes a line that carries no state (markers).
+func (d *driver) emitPlain(e M) { d.emit(e) }
+
+func (d *driver) runTrace(id, length int) {
+	d.lagMode = d.rng.Intn(4) == 0
+	d.slowType = ""
+	if d.rng.Intn(3) == 0 {
+		d.slowType = []string{"resync", "apirelease", "unbind", "filter", "bind", "poolupsert", "reload"}[d.rng.Intn(7)]
+	}
+	d.beginTrace(id, nil)
+	sc, w := d.sc, d.w
 	for i := 0; i < length && !d.hung; i++ {
 		if !w.Alive {
 			d.restart()
@@ -926,6 +963,7 @@ func main() {
 	length := flag.Int("len", 60, "driver actions per trace")
 	out := flag.String("out", "", "output ndjson file")
 	focus := flag.String("focus", "", "scenario family")
+	schedFile := flag.String("schedules", "", "JSON file with model behaviours (schedules) to replay instead of random scheduling")
 	flag.Parse()
 	wr := os.Stdout
 	if *out != "" {
@@ -940,6 +978,19 @@ func main() {
 	rng := rand.New(rand.NewSource(*seed))
 	d := &driver{rng: rng, out: json.NewEncoder(wr)}
 	hangs := 0
+	if *schedFile != "" {
+		for i, sch := range loadSchedules(*schedFile) {
+			d.replay(i, sch)
+			if d.hung {
+				hangs++
+			}
+		}
+		fmt.Fprintf(os.Stderr, "ipamdrive: replayed schedules, %d lines, %d hangs\n", d.nLines, hangs)
+		if hangs > 0 {
+			os.Exit(3)
+		}
+		return
+	}
 	for i := 0; i < *n; i++ {
 		d.sc = pickScenario(rng, *focus)
 		d.tid = i
